@@ -11,5 +11,4 @@ pub mod payload;
 pub mod sched;
 pub mod world;
 
-pub mod scen_basic;
-pub mod scen_dbg;
+pub mod scen_traffic;
